@@ -19,6 +19,16 @@ class TaggedChk:
             m = re.match(r"\s*([A-Z][A-Z0-9-]+):", text or "")
             if m:
                 key = key + ":" + m.group(1)
+                # one replay file per (program, tag): k1 names it by program only
+                try:
+                    import json
+                    obj = json.load(open(replay_path))
+                    if obj.get("verdict", "").strip().startswith(m.group(1)):
+                        newp = replay_path.replace(".json", "_" + m.group(1).replace("-", "_") + ".json")
+                        json.dump(obj, open(newp, "w"), indent=1)
+                        replay_path = newp
+                except (OSError, ValueError):
+                    pass
         return self._chk.violation(key, replay_path, no_input=no_input, text=text)
 
 
@@ -154,6 +164,57 @@ class CancellableAsan(Cancellable):
         return [] if tier == "quick" else Cancellable.programs(self, tier)
 
 
+class Canary(Unit):
+    """canary / watcher / guard: both destructors and alive() on two threads"""
+    name = "canary"; driver = "k1_canary"; cfg = "shim17"; handler = "canary"
+    bound = {"quick": 3, "thorough": 5}
+    maxruns = {"quick": 4000, "thorough": 60000}
+    nrandom = {"quick": 300, "thorough": 3000}
+    def programs(self, tier):
+        return [("0", "0"), ("1", "0"), ("1", "1")]
+    def model_args(self, prog):
+        return "%s %s" % prog
+    def project(self, prog, events):
+        out = []; ready = False
+        for e in events:
+            m = re.match(r"t(\d+) (\S+) ?(.*)$", e)
+            t, name, rest = int(m.group(1)), m.group(2), m.group(3)
+            if name == "!ready":
+                ready = True; continue
+            if not ready:
+                continue           # construction: canary.watch() happens before both threads
+            if name in ("!use", "!w_gone", "!c_gone"):
+                if rest:
+                    break          # "use AFTER-DESTROY": reported by the monitor
+                out.append((t, name[1:])); continue
+            loc = {"k.cw": "cw", "k.wc": "wc", "k.ws": "ws"}.get(name)
+            if not loc:
+                continue
+            # spins: the loads / CAS failures that merely wait are dropped
+            if loc == "ws" and rest == "L.acq 2":
+                continue                                   # ~canary waits while state_ == dead
+            if loc == "wc" and rest.startswith("L.acq") and rest != "L.acq 0":
+                continue                                   # ~watcher waits for canary_ == null
+            if loc == "cw" and rest.startswith("L.acq") and rest != "L.acq 0":
+                continue                                   # ~canary waits for watcher_ == null
+            if loc == "cw" and rest == "C.acq W|1->0 fail":
+                continue                                   # ~watcher retries while watcher_ is locked
+            out.append((t, loc + " " + rest))
+        return out
+    def post_check(self, prog, summary, proj):
+        if "late=0" not in summary or "blocked_unheld=0" not in summary:
+            return "model flags a late access / an unjustified wait: " + summary
+        if "quiescent=1" not in summary:
+            return "model not quiescent at the end of a complete implementation run: " + summary
+        return None
+
+
+class CanaryAsan(Canary):
+    name = "canary-asan"; cfg = "shimasan17"
+    def programs(self, tier):
+        return [] if tier == "quick" else Canary.programs(self, tier)
+
+
 def units(tier):
     """every K1 unit of C19, in the order of the brief (the ASan builds only in the thorough tier)"""
     asan = tier != "quick"
@@ -168,4 +229,7 @@ def units(tier):
         us += [getattr(cancel_sor, n)() for n in (("StopOnRequest", "StopOnRequestAsan") if asan else ("StopOnRequest",)) if hasattr(cancel_sor, n)]
     except ImportError:
         pass
+    us.append(Canary())
+    if asan:
+        us.append(CanaryAsan())
     return us
